@@ -31,7 +31,7 @@ SCHEMES = ["http", "https", "HTTP", "hTTps"]
 USERINFO = [None, "user:pw", "u", "a%40b:c", "x:y@z"]
 HOSTS = ["example.com", "EXAMPLE.Com", "a.b.", "xn--bcher-kva.example", "bücher.example", "例え.jp", "localhost", "1.2.3.4", "[::1]", "[2001:DB8::A]", "[fe80::1%25eth0]", "[::ffff:1.2.3.4]", "a-b.c_d.test", "UPPER.TEST."]
 PORTS = [None, "default", "8080", "0080", "8443", "65535", "1"]
-PATHS = ["", "/", "/a/b", "/a/./b/../c", "/../x", "/a b", "/%41%2fz", "/été", "/a//b/", "/a;p=1", "/a\\b", "/%zz", "/.", "/a/..", "/~u/+x", "/a%20b/%C3%A9"]
+PATHS = ["", "/", "//x//y", "/.//x", "/a/..//x", "/a/b", "/a/./b/../c", "/../x", "/a b", "/%41%2fz", "/été", "/a//b/", "/a;p=1", "/a\\b", "/%zz", "/.", "/a/..", "/~u/+x", "/a%20b/%C3%A9"]
 QUERIES = [None, "", "q=1&r=2", "a b", "x=%26y", "é", "a#b".split("#")[0], "q=a/b?c", "%zz"]
 FRAGS = [None, "", "frag", "f/g?h", "a b"]
 ROUTES = ["direct", "forward", "tunnel"]
